@@ -42,7 +42,7 @@ func (e c18Entry) parts() (idx, base string, ok bool) {
 }
 
 func (e c18Entry) mode() string {
-	for _, m := range []string{"exitnow", "noreg", "syncfail", "cfgfail", "dielater", "dropidle"} {
+	for _, m := range []string{"exitnow", "noreg", "syncfail", "cfgfail", "dielater", "dieafter", "dropidle"} {
 		if strings.Contains(e.File, m) {
 			return m
 		}
@@ -66,6 +66,7 @@ func c18Dirs(tier string, g *rand.Rand) [][]c18Entry {
 		[]c18Entry{{File: "10-good", Kind: "exec"}, {File: "20-dielater-c", Kind: "exec"}, {File: "30-also", Kind: "exec", ConfSpec: str(""), ConfGen: str("generic-not-used")}},
 		[]c18Entry{{File: "10-stubborn-a", Kind: "exec"}, {File: "20-good", Kind: "exec"}, {File: "30-stubborn-syncfail", Kind: "exec"}},
 		[]c18Entry{{File: "10-dropidle-a", Kind: "exec"}, {File: "20-good", Kind: "exec"}},
+		[]c18Entry{{File: "10-good", Kind: "exec"}, {File: "20-dieafter-a", Kind: "exec"}, {File: "30-also", Kind: "exec"}},
 		[]c18Entry{{File: "10-good", Kind: "exec"}, {File: "15-cfgfail-a", Kind: "exec", ConfGen: str("refused")}, {File: "30-also", Kind: "exec"}},
 		[]c18Entry{{File: "10-reidx-a", Kind: "exec", ConfSpec: str("specific-reidx")}, {File: "50-mid", Kind: "exec"}, {File: "95-last", Kind: "exec"}},
 		[]c18Entry{{File: "10-one", Kind: "exec"}, {File: "20-two", Kind: "exec"}, {File: "30-three", Kind: "exec"}, {File: "40-four", Kind: "exec"}, {File: "50-five", Kind: "exec"}},
@@ -182,7 +183,13 @@ func runC18Case(root, probe string, entries []c18Entry, tag string, res *ev.Resu
 			bait2.Close()
 		}
 	}()
-	rt, err := rig.NewRuntime(root, rig.WithAdaptationOptions(adaptation.WithPluginPath(plugins), adaptation.WithPluginConfigPath(confd)))
+	ropts := []adaptation.Option{adaptation.WithPluginPath(plugins), adaptation.WithPluginConfigPath(confd)}
+	if noExternal := hashName(tag)%3 == 0; noExternal {
+		// pre-installed plugins only, no socket for external ones
+		ropts = append(ropts, adaptation.WithDisabledExternalConnections())
+		what["external_connections"] = "disabled"
+	}
+	rt, err := rig.NewRuntime(root, rig.WithAdaptationOptions(ropts...))
 	if err != nil {
 		res.Note("runtime: %v", err)
 		return
@@ -228,7 +235,7 @@ func runC18Case(root, probe string, entries []c18Entry, tag string, res *ev.Resu
 	for _, e := range entries {
 		if _, _, ok := e.parts(); ok && e.Kind == "exec" {
 			launched = append(launched, e)
-			if m := e.mode(); m == "" || m == "dielater" || m == "dropidle" {
+			if m := e.mode(); m == "" || m == "dielater" || m == "dieafter" || m == "dropidle" {
 				working = append(working, e)
 			}
 			if e.mode() == "dropidle" {
@@ -324,7 +331,7 @@ func runC18Case(root, probe string, entries []c18Entry, tag string, res *ev.Resu
 	{
 		var want []string
 		for _, e := range launched {
-			if m := e.mode(); m == "" || m == "dielater" || m == "dropidle" {
+			if m := e.mode(); m == "" || m == "dielater" || m == "dieafter" || m == "dropidle" {
 				want = append(want, "syncupd-"+e.File)
 			}
 		}
@@ -413,6 +420,39 @@ func runC18Case(root, probe string, entries []c18Entry, tag string, res *ev.Resu
 				if rpl.GetAdjust().GetAnnotations()["probe."+e.File] != ctrID {
 					viol("contribution-missing", fmt.Sprintf("the adjustment of %s is missing from the reply", e.File))
 				}
+			}
+		}
+		// a plugin that died between two requests is skipped by the next one, of whatever kind, without affecting
+		// the others: here a StopContainer
+		died := false
+		for _, e := range working {
+			if e.mode() == "dieafter" {
+				died = true
+			}
+		}
+		if died {
+			time.Sleep(250 * time.Millisecond)
+			b := rt.A.BlockPluginSync()
+			_, serr := rt.A.StopContainer(context.Background(), &api.StopContainerRequest{Pod: &api.PodSandbox{Id: "p"}, Container: &api.Container{Id: ctrID, PodSandboxId: "p"}})
+			b.Unblock()
+			var stopped []string
+			if ob, err := os.ReadFile(filepath.Join(reports, "stoporder."+ctrID+".log")); err == nil {
+				for _, l := range strings.Split(strings.TrimSpace(string(ob)), "\n") {
+					if f := strings.Fields(l); len(f) == 2 {
+						stopped = append(stopped, f[1])
+					}
+				}
+			}
+			sort.Strings(stopped)
+			var wantStop []string
+			for _, e := range working {
+				if m := e.mode(); m == "" {
+					wantStop = append(wantStop, e.File)
+				}
+			}
+			sort.Strings(wantStop)
+			if serr != nil || strings.Join(stopped, ",") != strings.Join(wantStop, ",") {
+				viol("dead-plugin-affects-others", fmt.Sprintf("a StopContainer request after a pre-installed plugin died between requests returned %v and invoked %v, want no error and %v", serr, stopped, wantStop))
 			}
 		}
 	}
